@@ -58,6 +58,15 @@ type Vec struct {
 	Str   *string  `json:"str,omitempty"`
 	Parts []string `json:"parts,omitempty"`
 	Repl  *string  `json:"repl,omitempty"`
+	// programs over the value store (JIDStore.tla): base address BL/BD/BR, then operations on earlier results
+	Ops []Op `json:"ops,omitempty"`
+}
+
+// Op is one operation of a store program: Op on the H-th address handed out so far (1 = the base) with part P.
+type Op struct {
+	Op string `json:"op"`
+	H  int    `json:"h"`
+	P  []int  `json:"p"`
 }
 
 var plan Plan
@@ -442,6 +451,8 @@ func (r *runner) runCase(v *Vec) {
 		if werr == nil {
 			r.laws(w, "with"+v.Role)
 		}
+	case "prog":
+		r.runProg(v)
 	case "eq":
 		s1, s2 := conc(v.S1), conc(v.S2)
 		r.input = s1 + " ?= " + s2
@@ -479,6 +490,88 @@ func (r *runner) runCase(v *Vec) {
 			}
 		}
 	}
+}
+
+// runProg executes a program over the value store: every operation derives a new address from one handed out
+// earlier; after every operation ALL addresses handed out so far are read again (C11_Immutable: an address is a
+// value, deriving another one from it or from a relative never changes it).
+func (r *runner) runProg(v *Vec) {
+	bl, bd, br := conc(v.BL), conc(v.BD), conc(v.BR)
+	r.input = fmt.Sprintf("New(%q, %q, %q)", bl, bd, br)
+	base, err := jid.New(bl, bd, br)
+	if err != nil {
+		r.report("C11_Canonical(expected)", "New(base)", fmt.Sprintf("valid base rejected: %v", err))
+		return
+	}
+	type rec struct{ l, d, r, s string }
+	read := func(j jid.JID) rec { l, d, rs := parts(j); return rec{l, d, rs, j.String()} }
+	obs := func(hs []jid.JID) []interface{} {
+		o := []interface{}{}
+		for _, h := range hs {
+			l, d, rs := parts(h)
+			o = append(o, map[string]interface{}{"l": cps(l), "d": cps(d), "r": cps(rs)})
+		}
+		return o
+	}
+	hs := []jid.JID{base}
+	was := []rec{read(base)}
+	r.ev(vt.Ev{"ev": "base", "l": cps(was[0].l), "d": cps(was[0].d), "r": cps(was[0].r)})
+	for k, op := range v.Ops {
+		if op.H < 1 || op.H > len(hs) {
+			return
+		}
+		x := hs[op.H-1]
+		p := conc(op.P)
+		r.input += fmt.Sprintf("; #%d = #%d.%s(%q)", len(hs)+1, op.H, op.Op, p)
+		l, d, rs := parts(x)
+		var y, n jid.JID
+		var yerr, nerr error
+		switch op.Op {
+		case "bare":
+			y = x.Bare()
+			n, nerr = jid.New(l, d, "")
+		case "domain":
+			y = x.Domain()
+			n, nerr = jid.New("", d, "")
+		case "copy":
+			y = x.Copy()
+			n, nerr = jid.New(l, d, rs)
+		case "withl":
+			y, yerr = x.WithLocal(p)
+			n, nerr = jid.New(p, d, rs)
+		case "withd":
+			y, yerr = x.WithDomain(p)
+			n, nerr = jid.New(l, p, rs)
+		case "withr":
+			y, yerr = x.WithResource(p)
+			n, nerr = jid.New(l, d, p)
+		default:
+			return
+		}
+		if yerr == nil {
+			hs = append(hs, y)
+			was = append(was, read(y))
+		}
+		yl, yd, yr := parts(y)
+		nl, nd, nr := parts(n)
+		r.ev(vt.Ev{"ev": "hop", "k": k + 1, "op": op.Op, "h": op.H, "p": cps(p), "ok": yerr == nil, "l": cps(yl), "d": cps(yd), "r": cps(yr),
+			"nok": nerr == nil, "nl": cps(nl), "nd": cps(nd), "nr": cps(nr), "obs": obs(hs)})
+		for i, h := range hs {
+			if now := read(h); now != was[i] {
+				r.report("C11_Immutable", "prog."+op.Op, fmt.Sprintf("address #%d was %q (%q, %q, %q) and reads %q (%q, %q, %q) after #%d.%s(%q)",
+					i+1, was[i].s, was[i].l, was[i].d, was[i].r, now.s, now.l, now.d, now.r, op.H, op.Op, p))
+				was[i] = now
+			}
+		}
+		if (yerr == nil) != (nerr == nil) || (yerr == nil && (!y.Equal(n) || !sameParts(y, n))) {
+			r.report("C11_BuildReplaceParseAgree", "prog."+op.Op, fmt.Sprintf("#%d.%s(%q) = %q (%v) but New of the same parts = %q (%v)", op.H, op.Op, p, y.String(), yerr, n.String(), nerr))
+		}
+		if yerr != nil {
+			return
+		}
+	}
+	// the laws hold for the last address handed out (the others were subjects of shorter programs)
+	r.lawsQuiet(hs[len(hs)-1], "prog")
 }
 
 // lawsQuiet evaluates the laws without adding observation events (second subject of a case).
@@ -669,6 +762,9 @@ func main() {
 		for _, f := range os.Args[3:7] {
 			cases = append(cases, readVecs(f)...)
 		}
+		if pf := os.Getenv("JID_PROGS"); pf != "" {
+			cases = append(cases, readVecs(pf)...)
+		}
 		cases = append(cases, corpus(seed, envInt("JID_CORPUS", 30000))...)
 		tracePath = os.Args[7]
 	}
@@ -708,7 +804,7 @@ func main() {
 		v := &cases[i]
 		h := fnv.New64a()
 		fmt.Fprintf(h, "%d/%d", seed, i)
-		r.tracing = traceable(v) && every > 0 && h.Sum64()%uint64(every) == 0
+		r.tracing = traceable(v) && every > 0 && (h.Sum64()%uint64(every) == 0 || v.K == "prog")
 		r.evs = []vt.Ev{}
 		nf := len(r.findings)
 		r.runCase(v)
